@@ -91,11 +91,11 @@ func subjLenCerts() [][]byte {
 		}
 		for _, lim := range lims {
 			for ui, u := range units {
-				if lim == 32768 && ui > 0 && tier() != "thorough" {
-					continue
+				if lim == 32768 && (ui > 0 && tier() != "thorough" || ui > 1) {
+					continue // values of 32768 characters are 32-130 kB each; the wider characters are covered at the small limits
 				}
 				for _, n := range []int{lim - 1, lim, lim + 1} {
-					if lim == 32768 && n == lim-1 && tier() != "thorough" {
+					if lim == 32768 && n == lim-1 {
 						continue
 					}
 					val := strings.Repeat(u, n)
@@ -110,7 +110,7 @@ func subjLenCerts() [][]byte {
 						case 2:
 							attrs = append(attrs, subjAttr{at, val, 12}, subjAttr{at, "short", 12})
 						}
-						if shape > 0 && (lim == 32768 || (li+ui)%2 == 1) && tier() != "thorough" {
+						if shape > 0 && (lim == 32768 || (li+ui)%2 == 1 && tier() != "thorough") {
 							continue
 						}
 						t := leafTemplate()
